@@ -190,6 +190,8 @@ def run_repeat(case):
                 from vf.instruments import pipeline
                 if pipeline.history_prelude(spec["paths"], spec["folds"], case["seed"] + case["group"]):
                     res.count("history_preludes_completed")
+                else:
+                    res.count("history_prelude_failed:" + str(getattr(pipeline.history_prelude, "last_error", "?")))
         res["meta"] = meta
         if outs[0]["status"] != "ok":
             if all(o["status"] != "ok" and o.get("sig") == outs[0].get("sig") for o in outs):
